@@ -23,6 +23,10 @@ go test -vet=off -count=1 ./... 2>&1 | tail -6; r2=${PIPESTATUS[0]}
 cp $demo $wt/$pkg/zz_seed_demo_test.go
 echo "--- demo with patch (must fail)"
 go test -vet=off -count=1 ./$pkg/ -run 'Seed|C[0-9][0-9]|Demo' 2>&1 | tail -8; r3=${PIPESTATUS[0]}
+if [ $r3 = 0 ]; then
+  echo "--- demo with patch, built with -tags verif (demonstrations may use the hooks)"
+  go test -tags verif -vet=off -count=1 ./$pkg/ -run 'Seed|C[0-9][0-9]|Demo' 2>&1 | tail -8; r3=${PIPESTATUS[0]}
+fi
 cd /; git -C /repo worktree remove --force $wt; rm -rf $wt
 echo "RESULT id=$id demo_without=$r1 apply=$ra build=$rb suite_with=$r2 demo_with=$r3"
 if [ $r1 = 0 ] && [ $ra = 0 ] && [ $rb = 0 ] && [ $r2 = 0 ] && [ $r3 != 0 ]; then
